@@ -57,6 +57,9 @@ enum Op {
     Selection,
     Compiled,
     Checkpoint { msg: u64 },
+    /// a checkpoint frame of a summary kind the compiler does not support, written straight into the truth log
+    /// (no public API produces one); the caches are dropped and the store reopened
+    ForeignCheckpoint { msg: u64 },
     Schedule { stride: u64, max_new: u32 },
     Restart,
 }
@@ -273,6 +276,37 @@ fn apply_ops(o: &mut Opened, root: &Path, h: &mut Hist, ops: &[Op]) {
                             CompactionCheckpointCumulativeV1Request { summary_markdown: Some(format!("summary up to {msg}")), summary_artifact_id: None, to_message_id: Some(m), to_seq: None, stride_messages: None, actor_id: "user".into(), origin: "cli".into() },
                         )
                         .map(|_| ())
+                }
+            }
+            Op::ForeignCheckpoint { msg } => {
+                let truth = replay_truth(root, &id);
+                if h.messages.is_empty() || truth.is_empty() {
+                    Ok(())
+                } else {
+                    let m = h.messages[(*msg as usize) % h.messages.len()].clone();
+                    let to_seq = truth.iter().find(|e| e.id == m).map(|e| e.seq).unwrap_or(0);
+                    let ev = Event {
+                        id: uuid::Uuid::new_v4().to_string(),
+                        session_id: id.clone(),
+                        timestamp_ms: 1,
+                        seq: truth.last().unwrap().seq + 1,
+                        kind: EventKind::ContinuityCompactionCheckpointCreated {
+                            checkpoint_id: uuid::Uuid::new_v4().to_string(),
+                            cut_rule_id: "manual_v1".into(),
+                            summary_kind: "delta_v0".into(),
+                            summary_artifact_id: format!("no-such-artifact-{}", truth.len()),
+                            from_seq: 0,
+                            from_message_id: None,
+                            to_seq,
+                            to_message_id: Some(m),
+                            actor_id: "user".into(),
+                            origin: "cli".into(),
+                        },
+                    };
+                    let r = o.log.append(&ev).map_err(|e| e.to_string());
+                    let _ = std::fs::remove_dir_all(streams_dir(root));
+                    *o = open(root);
+                    r
                 }
             }
             Op::Schedule { stride, max_new } => o
@@ -636,7 +670,7 @@ fn gen_ops(r: &mut Rng, n: u64, sizes: &[u64], dense: bool) -> Vec<Op> {
             9..=11 => Op::RunEnded { run: if r.chance(2, 3) { nrun.saturating_sub(1) } else { r.below(nrun.max(1)) } },
             12 | 13 => Op::Checkpoint { msg: r.below(nmsg.max(1)) },
             14 => Op::Schedule { stride: r.range(1, 4), max_new: r.range(1, 3) as u32 },
-            15 => Op::Cursor,
+            15 => if dense || nmsg % 3 == 0 { Op::ForeignCheckpoint { msg: r.below(nmsg.max(1)) } } else { Op::Cursor },
             16 => Op::Selection,
             17 => Op::Compiled,
             18 => Op::Restart,
@@ -753,6 +787,8 @@ fn corpus_cases() -> Vec<Case> {
             big: false,
             race: vec![Op::SideFx, Op::Msg { size: 5 }, Op::RunEnded { run: 0 }],
         },
+        // only unsupported checkpoint kinds visible (reset + cause), then a cumulative one with a smaller to_seq
+        Case { ops: vec![Op::Msg { size: 5 }, Op::Msg { size: 5 }, Op::ForeignCheckpoint { msg: 1 }, Op::Msg { size: 5 }, Op::Checkpoint { msg: 0 }, Op::Msg { size: 5 }, Op::ForeignCheckpoint { msg: 2 }], anchors: vec![Anchor::Msg(1), Anchor::Msg(2), Anchor::Last], later: vec![Op::SideFx], faults: vec![(Target::Comp, FaultKind::Delete)], big: false, race: vec![] },
         // a reply that arrives after the cut must not be in the bundle; two runs for one message
         Case { ops: vec![Op::Msg { size: 5 }, Op::Run { msg: 0, text: 2, snap: 0 }, Op::Run { msg: 0, text: 3, snap: 2 }, Op::RunEnded { run: 0 }, Op::Msg { size: 5 }, Op::RunEnded { run: 1 }, Op::SideFx], anchors: vec![Anchor::Msg(0), Anchor::Last], later: vec![Op::RunEnded { run: 0 }], faults: vec![(Target::Mr, FaultKind::Delete)], big: false, race: vec![] },
     ]
@@ -1104,6 +1140,9 @@ fn main() {
                 res.bump(&format!("items={}", match bundle["items"].as_array().map(|x| x.len()).unwrap_or(0) { 0..=2 => "0-2", 3..=10 => "3-10", 11..=16 => "11-16", _ => "17+" }));
             } else {
                 res.bump("compile_error");
+            }
+            if let Out::Ok { decision, .. } = &c.baseline {
+                res.bump(&format!("cause:{}", decision["reason"]["cause"].as_str().unwrap_or("?")));
             }
             res.bump(&format!("anchor:{}", match (&c.anchor, c.cut_is_head) { (Anchor::Unknown, _) | (Anchor::NonMessage, _) => "invalid", (_, true) => "cut=head", _ => "cut<head" }));
             if !a.oracle_only() && out.abs_later.truth.len() <= 600 {
